@@ -37,23 +37,25 @@ def emit(ctx, wd, maxops):
     return cfg[0], basis, [[{"r": r, "text": text[json.dumps(r, sort_keys=True)]} for r in lst] for lst in lists]
 
 
-def validate(ctx, lines, name):
+def validate(ctx, lines, name, chunk=8000):
     bad = []
-    fd, path = tempfile.mkstemp(prefix="client_", suffix=".ndjson")
     keys = ("cfg", "mem0", "ops", "frag", "obs", "fault", "delivered", "raised", "mixed")
-    with os.fdopen(fd, "w") as f:
-        for ln in lines:
-            f.write(json.dumps({k: ln[k] for k in keys}, separators=(",", ":")) + "\n")
-    try:
-        res = tlc.run("ClientTrace", "ClientTrace.cfg", env={"TRACE_FILE": path}, timeout=2400)
-    finally:
-        os.unlink(path)
-    ctx.ev.tlc("validate:" + name, res)
-    if res.distinct != len(lines):
-        ctx.machinery.append("validate %s: TLC evaluated %d of %d runs" % (name, res.distinct, len(lines)))
-    for j in res.json:
-        if "tid" in j:
-            bad.append((lines[j["tid"] - 1], j["why"]))
+    for k in range(0, len(lines), chunk):
+        ch = lines[k:k + chunk]
+        fd, path = tempfile.mkstemp(prefix="client_", suffix=".ndjson")
+        with os.fdopen(fd, "w") as f:
+            for ln in ch:
+                f.write(json.dumps({x: ln[x] for x in keys}, separators=(",", ":")) + "\n")
+        try:
+            res = tlc.run("ClientTrace", "ClientTrace.cfg", env={"TRACE_FILE": path}, timeout=2400)
+        finally:
+            os.unlink(path)
+        ctx.ev.tlc("validate:" + name, res)
+        if res.distinct != len(ch):
+            ctx.machinery.append("validate %s: TLC evaluated %d of %d runs" % (name, res.distinct, len(ch)))
+        for j in res.json:
+            if "tid" in j:
+                bad.append((ch[j["tid"] - 1], j["why"]))
     return bad
 
 
